@@ -78,7 +78,15 @@ def _qb_worker(args):
                 cz.base = datetime.now(timezone.utc).replace(microsecond=0) - 3 * scale * MS
             base = cz.base
             bid = "qb-%d-%d" % (seed, i)
+            # half of the stores also hold a bucket whose id differs from the queried one in letter case only, created before or
+            # after it, with an event of its own across the whole range: a query names exactly one bucket
+            twin = bid.upper() if rnd.random() < 0.5 else None
+            twin_first = rnd.random() < 0.5
+            if twin and twin_first:
+                ds.create_bucket(twin, "t", "c", "h").insert(Event(timestamp=cz.dt(0) - 5 * scale * MS, duration=60 * scale * MS, data={"i": 77}))
             b = ds.create_bucket(bid, "t", "c", "h")
+            if twin and not twin_first:
+                ds.create_bucket(twin, "t", "c", "h").insert(Event(timestamp=cz.dt(0) - 5 * scale * MS, duration=60 * scale * MS, data={"i": 77}))
             spec = reads.contents_pool(rnd, scale)
             evl = [Event(timestamp=cz.dt(0) + s * MS, duration=ln * MS, data={"i": k}) for k, (s, ln) in enumerate(spec)]
             if evl:
@@ -112,6 +120,8 @@ def _qb_worker(args):
             from datetime import datetime as _dt, timezone as _tz
             if ws + (we - ws) / 2 < _dt(1970, 1, 2, tzinfo=_tz.utc):
                 ds.delete_bucket(bid)
+                if twin:
+                    ds.delete_bucket(twin)
                 continue          # the event added below would lie before 1970: outside the instants the properties talk about
             try:
                 q("qname", "x = query_bucket('%s'); y = query_bucket_eventcount('%s'); RETURN = no_such_function(x);" % (bid, bid), ws, we, ds)
@@ -126,6 +136,8 @@ def _qb_worker(args):
             out.append({"op": "qb", "backend": kind, "w": w, "evs": stored, "res": [pe(e) for e in res], "direct": [pe(e) for e in b.get(-1, ws, we)],
                         "n": cnt if isinstance(cnt, int) else -1, "ndirect": b.get_eventcount(ws, we)})
             ds.delete_bucket(bid)
+            if twin:
+                ds.delete_bucket(twin)
     finally:
         store.close_datastore(kind, ds)
         shutil.rmtree(root, ignore_errors=True)
